@@ -146,6 +146,8 @@ EvResume(e) ==
             /\ P("C12", "restored_digest:" \o e.digest_diff, e.digest_ok)
             /\ M("schedule: restored _last_checkpoint is not the pickled one", e.sched_ok)
        ELSE s' = s
+    \* the stored densities were computed with the proposals in memory: the ones read back from disk are the same
+    /\ P("C03", "proposals restored from disk are the proposals the stored densities were computed with", e.flows_ok)
     \* the re-derived density tables (float32) and everything else of C03
     /\ StoreClauses(e.tr, e, "training set after resume")
     /\ (Iid => StoreClauses(e.iid, e, "independent set after resume"))
